@@ -164,7 +164,7 @@ def check_C08(chk):
     c08d(chk)
     RC.record_accessors(chk, "C08.d")
     c08f(chk)
-    for r, n in (("C08.a", 2), ("C08.b", 3), ("C08.c", 2), ("C08.d", 7), ("C08.e", 1), ("C08.f", 3)):
+    for r, n in (("C08.a", 3), ("C08.b", 3), ("C08.c", 2), ("C08.d", 7), ("C08.e", 1), ("C08.f", 3)):
         chk.floor(r, n)
 
 
@@ -181,6 +181,25 @@ def c08a(chk, g):
                    "Result::Genotype must be dominated by a branch on allele %d alone admitting only {0,1}; admitted values here: %s "
                    "(7 = any larger index; per-allele branches found at %s). A decision that only depends on the alleles through their "
                    "sum counts GT 0/2 as 1/1." % (i, sorted(dom_vals[i]), used[i] or "none"))
+    # the allele indices reach the tests and the sum as they came out of position(): no conversion, no closure in between
+    # (`position().map(|a| a as u8)` makes allele 256 look like REF)
+    touched = []
+    for i in (0, 1):
+        src = g.pos_dest[i]
+        for b2, t2 in f.calls():
+            if callee_is(t2["callee"], TRY_FROM_RAW) or callee_name(t2["callee"]).startswith(("core::panicking", "core::fmt::")):
+                continue
+            for a_ in t2["args"]:
+                sl_, info_ = f.slice_locals(a_, through_calls=False)
+                if src in sl_:
+                    touched.append("allele %d handed to %s" % (i, callee_name(t2["callee"]).split("::")[-1]))
+        for b2, i2, p2, rv2, s2 in f.assigns():
+            if rv2["k"] == "cast":
+                sl_, info_ = f.slice_locals(rv2["op"], through_calls=False)
+                if src in sl_:
+                    touched.append("allele %d cast (%s) to %s" % (i, rv2.get("kind"), f.local_ty(p2[0])))
+    chk.ob("C08.a", "genotype::From/alleles-used-as-returned-by-position()", not touched, f.loc(),
+           "the two allele indices are compared and added exactly as returned by Allele::position() (conversions / calls on the way: %s)" % (touched or "none"))
     # the count handed on is a function of both alleles through Add only
     for b, rv in aggs:
         dd, info = g.depends(rv["ops"][0])
@@ -402,7 +421,7 @@ SAMPLE_MAP = "sfs_core::input::sample::Map"
 POP_MAP = "sfs_core::input::sample::population::Map"
 POP_ID = "sfs_core::input::sample::population::Id"
 MAP_FROM_ITER = "<sfs_core::input::sample::Map as core::iter::traits::collect::FromIterator<(S, P)>>::from_iter"
-ORDER_PRESERVING = {"from_iter", "get", "get_index", "get_index_of", "insert_full", "is_empty", "len", "keys", "values", "iter", "contains_key", "contains"}
+ORDER_PRESERVING = {"new", "with_capacity", "default", "insert", "get_full", "get_mut", "first", "last", "entry", "from_iter", "get", "get_index", "get_index_of", "insert_full", "is_empty", "len", "keys", "values", "iter", "contains_key", "contains"}
 ORDER_ADAPTORS_BAD = ("rev", "skip", "step_by", "filter", "take", "sort", "chain", "cycle", "flat_map", "peekable", "zip")
 
 
@@ -461,7 +480,50 @@ def c09ab(chk):
                    "method `%s` on the sample/population map is%s on the reviewed order-preserving list %s" % (name, "" if name in ORDER_PRESERVING else " NOT", sorted(ORDER_PRESERVING)))
 
 
+def _c09c_merged(chk, f):
+    """get / insert merged into get_or_insert: `match self.0.get_index_of(&name) { Some(i) => i, None => self.0.insert_full(name).0 }` -> Id"""
+    GI, IF = "indexmap::set::IndexSet::<T, S>::get_index_of", "indexmap::set::IndexSet::<T, S>::insert_full"
+    gi, ins = an.calls(f, GI), an.calls(f, IF)
+    ok_get = ok_ins = ok_comb = False
+    why = "expected one get_index_of and one insert_full on self.0"
+    if len(gi) == 1 and len(ins) == 1:
+        on_self = all(an.self_field(an.arg_pointee(f, t, 0) or (0, ())) == "0" for b, t in gi + ins)
+        same_name = _param_root_owned(f, gi[0][1]["args"][1]) == 2 and _param_root_owned(f, ins[0][1]["args"][1]) == 2
+        oc = an.option_outcomes(f, gi[0][0])
+        gd, idst = an.call_dest_local(gi[0][1]), an.call_dest_local(ins[0][1])
+        # every Id(..) is built from the found index or from insert_full(..).0
+        srcs = set()
+        n_id = 0
+        for b, i, p, rv, s_ in f.assigns():
+            if rv["k"] == "aggregate" and rv.get("adt") == POP_ID:
+                n_id += 1
+                sl, info = f.slice_locals(rv["ops"][0], through_calls=False)
+                for l in sl:
+                    for d in f.defs.get(l, []):
+                        if d[0] == "assign" and d[3]["k"] == "use":
+                            pl = op_place(d[3]["op"])
+                            if pl and pl[0] == gd and any(e[0] == "downcast" and e[1] == "Some" for e in pl[1]):
+                                srcs.add("found")
+                            elif pl and pl[0] == idst and [e[1] for e in pl[1] if e[0] == "field"] == [0]:
+                                srcs.add("inserted")
+                            elif pl and pl[0] == idst:
+                                srcs.add("other-part-of-insert_full")
+                        if d[0] == "assign" and d[3]["k"] == "binop":
+                            srcs.add("arithmetic")
+        ok_get = on_self and same_name and "found" in srcs
+        ok_ins = on_self and same_name and "inserted" in srcs and srcs <= {"found", "inserted"}
+        ok_comb = oc is not None and an.dominated_by_edge(f, oc[0], oc[2], ins[0][0]) and n_id >= 1 and srcs == {"found", "inserted"}
+        why = "merged form: Id built from %s; insert_full only on the None edge of get_index_of=%s" % (sorted(srcs), oc is not None and an.dominated_by_edge(f, oc[0], oc[2], ins[0][0]))
+    chk.ob("C09.c", "population::Map::insert/id=insertion-index", ok_ins, f.loc(), why)
+    chk.ob("C09.c", "population::Map::get/id=get_index_of", ok_get, f.loc(), why)
+    chk.ob("C09.c", "population::Map::get_or_insert=get.unwrap_or_else(insert)", ok_comb, f.loc(),
+           "an existing label keeps its id, a new label gets the next insertion index (%s)" % why)
+
+
 def c09c(chk):
+    if chk.prog.fns.get(POP_MAP + "::insert") is None and chk.prog.fns.get(POP_MAP + "::get") is None and chk.prog.fns.get(POP_MAP + "::get_or_insert") is not None:
+        _c09c_merged(chk, chk.prog.fns[POP_MAP + "::get_or_insert"])
+        return
     f = chk.fn(POP_MAP + "::insert")
     if f is not None:
         ok = False
@@ -557,30 +619,59 @@ def c09d(chk):
            "sample::Map must only be built by FromIterator::from_iter (found %s)" % sorted(set(ctors)))
     f = chk.fn(MAP_FROM_ITER)
     if f is not None:
-        # IndexMap::from_iter(iter.into_iter().map(closure)) with no reordering adaptor
-        fi = [(b, t) for b, t in f.calls() if callee_is(t["callee"], N.FROM_ITER)]
+        # every (sample, label) entry of the input, in input order, is paired with get_or_insert(label) and put into the IndexMap:
+        # IndexMap::from_iter(iter.into_iter().map(closure)), or a loop that inserts each entry
+        import iters as IT
+        its = IT.iterations(prog, f)
+        unit = [f] + prog.closures_of(f.path)
+        gcalls = [(g_, b, t) for g_ in unit for b, t in an.calls(g_, POP_MAP + "::get_or_insert")]
+        it = None
+        if len(gcalls) == 1:
+            g_, gb, gt = gcalls[0]
+            inside = [x for x in its if x.body is g_ and gb in x.blocks]
+            it = min(inside, key=lambda x: len(x.blocks)) if inside else None
         ok = False
-        why = "IndexMap::from_iter(..map(closure)) not recognised"
-        if len(fi) == 1:
-            sl, info = f.slice_locals(fi[0][1]["args"][0])
-            nm = [x[1]["callee"].get("path") or "" for x in info["calls"]]
-            adapt = [n.split("::")[-1] for n in nm if n.startswith("core::iter::")]
-            ok = sorted(adapt) == ["into_iter", "map"]
-            why = "adaptors between the input and IndexMap::from_iter: %s" % adapt
+        why = "iteration over the input entries calling get_or_insert not recognised"
+        ok2 = False
+        if it is not None:
+            g_, gb, gt = gcalls[0]
+            chk.fns_analysed.add(g_.path)
+            ch = it.chain()
+            names = IT.chain_names(ch)
+            src = ch[-1][1]
+            from_input = src is not None and src[0] == 1 and not [n for n in names if n not in ("map",)]
+            it.through_casts = False
+            label_ok = False
+            sl, info = g_.slice_locals(gt["args"][1])
+            for l in sl:
+                for d in g_.defs.get(l, []):
+                    if d[0] == "assign" and d[3]["k"] == "use" and it.elem_path(d[3]["op"]) == (1,):
+                        label_ok = True
+            idl = an.call_dest_local(gt)
+            if it.kind == "closure" and it.consumer == "map":
+                fi = [(b, t) for b, t in f.calls() if callee_is(t["callee"], N.FROM_ITER) or callee_is(t["callee"], N.COLLECT)]
+                into_map = len(fi) == 1 and IT.chain_get(IT.receiver_chain(f, fi[0][1]["args"][0]), "map") is it.term
+                ret = [d for d in g_.defs.get(0, []) if d[0] == "assign" and d[3]["k"] == "aggregate"]
+                paired = len(ret) == 1 and op_local(ret[0][3]["ops"][1]) is not None and g_.copy_root(op_local(ret[0][3]["ops"][1])) == idl
+                sample_ok = len(ret) == 1 and any(d[0] == "assign" and d[3]["k"] == "use" and it.elem_path(d[3]["op"]) == (0,) for l in g_.slice_locals(ret[0][3]["ops"][0])[0] for d in g_.defs.get(l, []))
+                uncond = not it.switches()
+                ok = from_input and into_map
+                ok2 = label_ok and paired and sample_ok and uncond
+                why = "IndexMap::from_iter(input.map(..)): adaptors %s, from the input=%s" % (names, from_input)
+            elif it.kind == "loop":
+                insc = [(b, t) for b, t in it.calls() if callee_name(t["callee"]).split("::")[-1] == "insert" and "indexmap::map::IndexMap" in callee_name(t["callee"])]
+                paired = len(insc) == 1 and op_local(insc[0][1]["args"][2]) is not None and f.copy_root(op_local(insc[0][1]["args"][2])) == idl
+                sample_ok = len(insc) == 1 and any(d[0] == "assign" and d[3]["k"] == "use" and it.elem_path(d[3]["op"]) == (0,) for l in f.slice_locals(insc[0][1]["args"][1])[0] for d in f.defs.get(l, []))
+                # the map that is filled is the one returned
+                mp = an.arg_pointee(f, insc[0][1], 0) if len(insc) == 1 else None
+                agg = [rv for b, i, p, rv, s_ in f.assigns() if rv["k"] == "aggregate" and rv.get("adt") == SAMPLE_MAP]
+                returned = mp is not None and len(agg) == 1 and op_local(agg[0]["ops"][0]) is not None and f.copy_root(op_local(agg[0]["ops"][0])) == mp[0]
+                uncond = it.runs_for_every_element() and not it.switches()
+                ok = from_input and returned
+                ok2 = label_ok and paired and sample_ok and uncond
+                why = "for entry in input { map.insert(sample, id) }: from the input=%s, the filled map is returned=%s" % (from_input, returned)
         chk.ob("C09.d", "Map::from_iter/input-order-preserved", ok, f.loc(), why)
-        cls = prog.closures_of(MAP_FROM_ITER)
-        ok = False
-        if len(cls) == 1:
-            c = cls[0]
-            chk.fns_analysed.add(c.path)
-            g = an.calls(c, POP_MAP + "::get_or_insert")
-            # the population argument derives from tuple field 1, the sample from field 0; result tuple (sample, id)
-            if len(g) == 1 and not list(c.switches()):
-                sl, info = c.slice_locals(g[0][1]["args"][1])
-                from1 = any(d[0] == "assign" and d[3]["k"] == "use" and op_place(d[3]["op"]) and op_place(d[3]["op"])[0] == 2 and [e[:2] for e in op_place(d[3]["op"])[1][:1]] == [("field", 1)] for l in sl for d in c.defs.get(l, []))
-                ret = [d for d in c.defs.get(0, []) if d[0] == "assign" and d[3]["k"] == "aggregate"]
-                ok = from1 and len(ret) == 1 and op_local(ret[0][3]["ops"][1]) is not None and c.copy_root(op_local(ret[0][3]["ops"][1])) == an.call_dest_local(g[0][1])
-        chk.ob("C09.d", "Map::from_iter::closure/one-get_or_insert-per-entry", ok, f.loc(), "each (sample, label) entry calls get_or_insert(label) exactly once, unconditionally, and pairs the sample with that id")
+        chk.ob("C09.d", "Map::from_iter::closure/one-get_or_insert-per-entry", ok2, f.loc(), "each (sample, label) entry calls get_or_insert(label) exactly once, unconditionally, and pairs the sample with that id")
     # funnels
     for path, how in ((SAMPLE_MAP + "::from_all", "from_iter"), (SAMPLE_MAP + "::from_str", "collect"), (SAMPLE_MAP + "::from_reader", "from_str"), (SAMPLE_MAP + "::from_path", "from_reader")):
         f = prog.fn(path)
